@@ -35,7 +35,9 @@ fn main() {
                 "setup" => {
                     setup_random(&mut g, &mut rng, round);
                     if !g.dead {
-                        if round % 3 == 2 {
+                        if round % 3 == 1 {
+                            play_shuttle(&mut g, &mut rng, 14);
+                        } else if round % 3 == 2 {
                             // the game that follows a REAL setup (not a parsed position) is confined to the
                             // two a/b-file corners, so that the opening position itself recurs
                             let region: Vec<usize> = vec![48, 49, 40, 41, 32, 33, 8, 9, 16, 17, 24, 25];
